@@ -2,6 +2,8 @@ pub mod attr;
 pub mod ext;
 pub mod partial;
 pub mod pretty;
+#[cfg(typstyle_verif)]
+pub mod verif;
 
 mod config;
 mod utils;
